@@ -32,6 +32,10 @@ CLAIMED = {
          "Lean theorems over session model + correspondence + reject oracle", "5 C16"),
  "C19": ("proof", "Lean: call log of DefaultHandler.send = all-types handlers then type handlers in registration order up to the first refusal; any refusal or ToBytes error => nothing enqueued; the save handler registered first runs first and its failure stops the send; inbound: all-types then own-type; session level: every numbered message is in the store under its own number (C19_saved, all histories). Correspondence with the real DefaultHandler / Session incl. failing store.",
          "Lean theorems over pool model + session store-trace + correspondence + store/handler oracles", "5 C19"),
+ "C05": ("proof", "Lean: for every schedule of any number of concurrent sends running lock/fetch-add/enqueue/unlock the enqueued numbers are c0+1,c0+2,... (C05_consecutive); Session.send is shown to be that program by facts regenerated from the source on every run (C05_generated, decide); session model: numbering continues from the stored counter and every message carries the current identifiers (all histories). Concurrent stress on the real Session with an independent wire tokenizer as failing-schedule search.",
+         "Lean theorem over all schedules + source-regenerated path facts + session trace invariant + concurrent stress search", "5 C05"),
+ "C20": ("proof", "Lean lockset theorem: in a disciplined access table two goroutines are never inside conflicting accesses of one location, for all interleavings of lock operations; the table (every field access with held mutexes, atomics, constructors) is regenerated from /repo on every run and decided by kernel evaluation. go -race scenario driver as failing-schedule search. Known finding: Session.LogonSettings replaced without s.mu.",
+         "Lean lockset theorem + source-regenerated access table (decide) + race-detector scenario search", "5 C20"),
 }
 NOT_YET = {}
 
